@@ -449,7 +449,9 @@ def rule_regex_pattern(ctx):
                                                   "fnmatch.fnmatch": shell_match, "fnmatch.fnmatchcase": shell_match},
                             stubs={"cutplace.ranges.Range": stub(lambda i, a, k: Obj(model.cls("cutplace.ranges.Range"), {}))})
             world = World(model, interp, ch)
-            rule = "a*b"
+            # round 11: a rule without any special character is a pattern like every other (a "plain text" shortcut that
+            # compares for equality would refuse the longer texts `match` accepts)
+            rule = ch.choose("rule", ["a*b", "item"])
             field = interp.instantiate(ClassRef(model.cls(FIELDS + field_type + "FieldFormat")), ["f", False, "", rule, world.data_format()], {})
             cell_text = Atom("cell", "cell")
             try:
